@@ -159,6 +159,8 @@ class MerkleCache(object):
         self.length = 0
         self.level = []
         self.depth_higher = 0
+        # Counts calls to truncate() so that an extension in flight can notice one
+        self.truncations = 0
         self.initialized = Event()
 
     def _segment_length(self):
@@ -178,10 +180,16 @@ class MerkleCache(object):
         '''Extend the length of the cache if necessary.'''
         if length <= self.length:
             return
-        # Start from the beginning of any final partial segment.
-        # Retain the value of depth_higher; in practice this is fine
-        start = self._leaf_start(self.length)
-        hashes = await self.source_func(start, length - start)
+        while True:
+            truncations = self.truncations
+            # Start from the beginning of any final partial segment.
+            # Retain the value of depth_higher; in practice this is fine
+            start = self._leaf_start(self.length)
+            hashes = await self.source_func(start, length - start)
+            # A truncation (chain reorganisation) whilst waiting for the hashes means they
+            # may be stale and that self.length was not reduced because it was still short
+            if truncations == self.truncations:
+                break
         self.level[start >> self.depth_higher:] = self._level(hashes)
         self.length = length
 
@@ -211,6 +219,7 @@ class MerkleCache(object):
             raise TypeError('length must be an integer')
         if length <= 0:
             raise ValueError('length must be positive')
+        self.truncations += 1
         if length >= self.length:
             return
         length = self._leaf_start(length)
